@@ -22,6 +22,7 @@ const (
 	maxPacketSize          = maxMessageSize / maxChunksPerPacket // maximum size of the full packet
 	packetHeaderSize       = 50                                  // the overhead of the protobuf packet header
 	queueSendTimeout       = 10 * time.Second                    // how long a message waits to be queued before throwing an error
+	queueSendPoll          = 2 * time.Millisecond                // how often a multi-packet message re-checks the free space of the send queue
 	maxMessageSize         = uint32(256 * units.MB)              // the maximum total size of a message once all the packets are added up
 	dataFlowRatePerS       = maxMessageSize                      // the maximum number of bytes that may be sent or received per second per MultiConn
 	maxChanSize            = 1                                   // maximum number of items in a channel before blocking
@@ -501,6 +502,22 @@ func (s *Stream) queueSends(packets []*Packet, sendStart time.Time, metrics *lib
 	defer lib.TimeTrack(s.logger, time.Now(), time.Second)
 	s.mu.Lock()
 	defer s.mu.Unlock()
+	// all or nothing: a message whose first packets are queued and whose last are not would be glued to the next message of
+	// this topic by the receiver. Only this function (under the mutex) adds to the queue, so the free space can only grow while
+	// waiting: wait - as long as a single packet would - until the whole message fits, then queue it without blocking
+	if n := len(packets); n > 1 && n <= cap(s.sendQueue) {
+		deadline := time.Now().Add(queueSendTimeout)
+		for !s.closed && cap(s.sendQueue)-len(s.sendQueue) < n {
+			if !time.Now().Before(deadline) {
+				if metrics != nil {
+					metrics.SendQueueTimeout.Inc()
+					metrics.SendQueueFull.WithLabelValues(lib.Topic_name[int32(s.topic)]).Inc()
+				}
+				return false
+			}
+			time.Sleep(queueSendPoll)
+		}
+	}
 	for _, packet := range packets {
 		ok := s.queueSend(packet, sendStart, metrics)
 		if !ok {
